@@ -116,7 +116,7 @@ def run_stage(pid, flavour, binary, seconds, tier, seed, nworkers, extra, known_
         env.pop("UBSAN_OPTIONS", None)
         if flavour == "asan":
             fills = [0x00, 0xFF, 0xAA, 0xBE, 0x7F, 0x55]
-            env["ASAN_OPTIONS"] = "exitcode=77:detect_leaks=1:malloc_fill_byte=%d:max_malloc_fill_size=1073741824:allocator_may_return_null=0:max_allocation_size_mb=2048:detect_stack_use_after_return=0" % fills[w % len(fills)]
+            env["ASAN_OPTIONS"] = "exitcode=77:detect_leaks=0:malloc_fill_byte=%d:max_malloc_fill_size=1073741824:allocator_may_return_null=0:max_allocation_size_mb=2048:detect_stack_use_after_return=0:clear_shadow_mmap_threshold=16777216" % fills[w % len(fills)]
             env["UBSAN_OPTIONS"] = "halt_on_error=1:exitcode=77:print_stacktrace=1"
             env["AMGSIM_ASAN_FILL"] = "%d" % fills[w % len(fills)]
         cmd = [exe, "--seed", str(seed), "--from", str(w), "--stride", str(nworkers), "--count", "1000000000",
@@ -187,7 +187,7 @@ def classify_crash(pid, crash, seed, tier, replay_dir, known):
     exe = crash["exe"]
     env = dict(os.environ)
     if crash["flavour"] == "asan":
-        env["ASAN_OPTIONS"] = "exitcode=77:detect_leaks=1:max_allocation_size_mb=2048:allocator_may_return_null=0"
+        env["ASAN_OPTIONS"] = "exitcode=77:detect_leaks=0:max_allocation_size_mb=2048:allocator_may_return_null=0"
         env["UBSAN_OPTIONS"] = "halt_on_error=1:exitcode=77:print_stacktrace=1"
     cmd = [exe, "--seed", str(seed), "--from", str(crash["run"]), "--count", "1", "--tier", tier, "--print-plan", "--no-shrink",
            "--replay-dir", replay_dir]
@@ -200,6 +200,11 @@ def classify_crash(pid, crash, seed, tier, replay_dir, known):
             outs.append((-9, (e.stdout or b"").decode("utf-8", "replace"), "timeout"))
     rcs = [o[0] for o in outs]
     if all(rc in (0, 1, 2) for rc in rcs):
+        # the crash happened while gating/shrinking: the un-shrunk violation reported by the fresh process stands
+        vs = [json.loads(l[2:]) for l in outs[0][1].splitlines() if l.startswith("V ")]
+        ks = [json.loads(l[2:]) for l in outs[0][1].splitlines() if l.startswith("K ")]
+        if vs or ks:
+            return ("violations", [dict(v, flavour=crash["flavour"], exe=exe) for v in vs], ks)
         return ("error", "crash of run %s did not reproduce in a fresh process (%s)" % (crash["run"], crash["kind"]))
     if rcs[0] != rcs[1]:
         return ("error", "crash of run %s reproduces inconsistently: %s" % (crash["run"], rcs))
@@ -294,8 +299,12 @@ def main():
     violations = list(agg.get("violations", []))
     # 3. crashed runs -> classified by a fresh-process replay
     for c in agg.get("crashes", []):
-        kind, val = classify_crash(pid, c, seed, tier, replay_dir, known)
-        if kind == "error":
+        cc = classify_crash(pid, c, seed, tier, replay_dir, known)
+        kind, val = cc[0], cc[1]
+        if kind == "violations":
+            violations.extend(val)
+            agg.setdefault("known", []).extend(cc[2])
+        elif kind == "error":
             messages.append("SIMULATOR-PROBLEM " + val)
             rc = 2
         else:
@@ -344,8 +353,8 @@ def main():
         log("VIOLATION property=%s replay=%s" % (pid, v["replay"]))
         log("  oracle=%s sig=%s" % (v.get("oracle"), json.dumps(v.get("sig"))))
         log("  detail=%s" % (v.get("detail") or "")[:800].replace("\n", " | "))
-    if confirmed and rc == 0:
-        rc = 1
+    if confirmed:
+        rc = 1      # a confirmed, replayable violation takes precedence over simulator problems seen in the same batch
 
     # 6. evidence
     wall = time.time() - t_start
@@ -395,6 +404,7 @@ COMMON_ASSUMPTIONS = [
 ]
 ASSUMPTIONS = {}
 RULES = {
+    "C10": "world = (valid input incl. 1x1/diagonal/disconnected/positive-offdiagonal/Dirichlet-row/n<coarse_enough/max_levels=1, kind in amg|relaxation-as-preconditioner|zero-copy amg|skyline_lu, run-time configuration, nt, pre-history of 0-3 unrelated solves); each world is executed under 4 simulated heaps (clean + 3 drawn from fill 00/ff/aa/snan/random x LIFO recycling x address shift) plus a ledger pass, and once per world under ASan+UBSan in the asan stage; non-trivial = degenerate input or >=2 levels; distinct by hash(matrix, configuration)",
     "C09": "world = (component, matrix family/size/seed, nt, schedule strategy+seed); a case is non-trivial when nt>=2, the world under test took >=1 deviation from the canonical schedule and the matrix has >=2 rows; distinct by hash(matrix, component, nt, deviation list, configuration)",
 }
 
